@@ -373,7 +373,8 @@ def written_items(nets, cps, desc):
             sc = float(nets[rn][rt].at[ri, "scaling"])
             obs = float(nets[wn][wt].at[wi, VALUE_COL[wt]])
             args = [val, sc] + hh + [cp["eta"]]
-            items.append(("KConvQ.%s %s" % (cp["coq"], " ".join(q(a) for a in args)), obs,
+            items.append(("(spec_%s %s, KConvQ.%s %s)" % (cp["kind"], " ".join(q(a) for a in args), cp["coq"],
+                                                          " ".join(q(a) for a in args)), obs,
                           dict(desc, controller=cp["kind"], vector_index=cp["vector"], read="%s.%s[%s]" % (rn, rt, ri),
                                write="%s.%s[%s]" % (wn, wt, wi), value=val, scaling=sc, hhv=hh, efficiency=cp["eta"],
                                written=obs)))
@@ -472,19 +473,25 @@ def check_written(ctx, items, label):
         return
     tol = Fr(1, 10 ** 12)
     body = ";\n".join("(%s, %s)" % (e, q(o)) for e, o, _ in items)
-    txt = HEAD + ("Open Scope Q_scope.\nDefinition cs : list (Q * Q) := [\n%s\n].\n"
-                  "Definition ok (c : Q * Q) : bool := Qle_bool (Qabs (fst c - snd c)) (%s * Qabs (fst c)).\n"
-                  "Eval vm_compute in (summary (map ok cs)).\nEval vm_compute in (map ok cs).\n" % (body, q(tol)))
+    txt = HEAD + ("Open Scope Q_scope.\nDefinition cs : list ((Q * Q) * Q) := [\n%s\n].\n"
+                  "Definition close (a b : Q) : bool := Qle_bool (Qabs (a - b)) (%s * Qabs a).\n"
+                  "Definition ok (c : (Q * Q) * Q) : bool := close (fst (fst c)) (snd c).\n"
+                  "Definition ok_gen (c : (Q * Q) * Q) : bool := close (snd (fst c)) (snd c).\n"
+                  "Eval vm_compute in (summary (map ok cs)).\nEval vm_compute in (summary (map ok_gen cs)).\n"
+                  "Eval vm_compute in (map ok cs).\n" % (body, q(tol)))
     trip, out = ctx.coq_counts(txt, "written_" + label)
-    if not trip:
-        ctx.broken("monitor", "written cells vs Gen/KConv.v (coqc failed)", out[-1000:])
+    if not trip or len(trip) < 2:
+        ctx.broken("monitor", "written cells vs documented law (coqc failed)", out[-1000:])
         return
     n, m, first = trip[0]
-    ctx.extra.setdefault("monitors", []).append({"name": "written cells vs generated formula (" + label + ")", "cases": n,
+    if trip[1][1] and not m:
+        ctx.broken("translator-validation", "Gen/KConv.v (Q twin) does not reproduce %d written cells that the documented "
+                   "law reproduces" % trip[1][1], "first case %d: %s" % (trip[1][2], items[trip[1][2]][0][:300]))
+    ctx.extra.setdefault("monitors", []).append({"name": "written cells vs documented law spec_* and vs generated formula (" + label + ")", "cases": n,
                                                  "failures": m, "tolerance": "1e-12 relative (hhv is decimal data)"})
     if m:
         import re
-        flags = re.findall(r"\b(true|false)\b", out.split("=", 2)[-1])
+        flags = re.findall(r"\b(true|false)\b", out.split("=", 3)[-1])
         bad = [i for i, f in enumerate(flags) if f == "false"] if len(flags) == len(items) else [first]
         seen = set()
         for i in bad:
